@@ -203,5 +203,46 @@ pub fn run(ctx: &mut Ctx, _replay: Option<&[String]>) {
         }
         ctx.emit(&format!("c20 ber {} {} {} 8", minc, maxc, stepc), &format!("{} {}", data.len(), ok as u8), true, &["ber-result-file"]);
     }
+    // ---------------------------------------------------------------- ber with puncturing + interleaving + 8PSK, and with the outer-code accounting
+    {
+        let parse = |text: &str| -> (Vec<Vec<f64>>, String) {
+            let mut data = Vec::new();
+            let mut after = false;
+            for l in text.lines() {
+                if after && l.contains('|') {
+                    data.push(l.split('|').map(|x| x.trim().parse::<f64>().unwrap_or(f64::NAN)).collect::<Vec<f64>>());
+                }
+                if l.starts_with("--------|") { after = true; }
+            }
+            (data, text.lines().filter(|l| l.starts_with(" - ") || l.contains("results")).collect::<Vec<_>>().join(";"))
+        };
+        let ident = |d: &Vec<f64>, k: f64| -> bool {
+            d.len() == 11 && d[1] >= d[3] && d[2] >= d[3]
+                && (d[5] - d[2] / (k * d[1])).abs() <= 0.006 * d[5].abs() + 1e-12 && (d[6] - d[3] / d[1]).abs() <= 0.006 * d[6].abs() + 1e-12
+        };
+        // (a) puncturing 1,1,1,0 of the 4x12 code (N = 9), 3 interleaver columns, 8PSK
+        let of = format!("{}/ber-punct.txt", dir);
+        let o = run_bin(&bin, &["ber", &good, "--min-ebn0", "3", "--max-ebn0", "4", "--step-ebn0", "1", "--frame-errors", "15", "--max-iter", "10",
+            "--decoder", "HLPhif32", "--puncturing", "1,1,1,0", "--interleaving", "3", "--modulation", "PSK8", "--output-file", &of]);
+        let (data, details) = parse(&std::fs::read_to_string(&of).unwrap_or_default());
+        let want = ["Modulation: 8PSK", "Puncturing pattern: 1,1,1,0", "Interleaving columns: 3", "Information bits (k): 8", "Codeword size (N_cw): 12",
+            "Frame size (N): 9", "Code rate: 0.889", "Implementation: HLPhif32", "Maximum iterations: 10"];
+        let ok = !o.status_nonzero && data.len() == 2 && data.iter().all(|d| ident(d, 8.0) && d[3] == 15.0) && want.iter().all(|w| details.contains(w));
+        ctx.emit("c20 berx punctured-interleaved-8psk", &format!("{} {}", data.len(), ok as u8), true, &["ber-result-file-punctured-8psk"]);
+        // (b) outer code correcting up to 2 bit errors: the main file counts frames with > 2 bit errors, the LDPC-only file every erroneous frame
+        let (of, ofl) = (format!("{}/ber-bch.txt", dir), format!("{}/ber-ldpc.txt", dir));
+        let o = run_bin(&bin, &["ber", &good, "--min-ebn0", "2", "--max-ebn0", "3", "--step-ebn0", "1", "--frame-errors", "15", "--max-iter", "10",
+            "--decoder", "Aminstari8", "--bch-max-errors", "2", "--output-file", &of, "--output-file-ldpc", &ofl]);
+        let (dm, det_m) = parse(&std::fs::read_to_string(&of).unwrap_or_default());
+        let (dl, det_l) = parse(&std::fs::read_to_string(&ofl).unwrap_or_default());
+        let mut ok = !o.status_nonzero && dm.len() == 2 && dl.len() == 2 && det_m.contains("LDPC+BCH results") && det_l.contains("LDPC-only results")
+            && det_m.contains("Maximum bit errors correctable: 2");
+        for (m, l) in dm.iter().zip(dl.iter()) {
+            // same Eb/N0 and frames; the outer code can only remove errors; every remaining error frame has >= 3 bit errors; the point stops on the outer-code count
+            ok = ok && ident(m, 8.0) && ident(l, 8.0) && m[0] == l[0] && m[1] == l[1] && m[3] == 15.0 && l[3] >= m[3] && l[2] >= m[2] && m[2] >= 3.0 * m[3]
+                && (l[2] - m[2]) <= 2.0 * (l[3] - m[3]);
+        }
+        ctx.emit("c20 berx outer-code", &format!("{} {}", dm.len(), ok as u8), true, &["ber-result-file-outer-code"]);
+    }
     let _ = std::fs::remove_dir_all(&dir);
 }
